@@ -67,6 +67,12 @@ WHY_MISSED = {
     "C06_12": "Cox forward recursion by subtraction: algebraically equal, catastrophic cancellation (§4 C06)",
     "C19_10": "value of the MCP prox at the fallback step (sign is decided by R-FALLBACK, the value is numeric)",
     "C11_11": "Cox times replaced by ordinal ranks: a value transformation of y that only matters with ties (§4 C11)",
+    "C10_14": "numpy's buffered `a[idx] += v` with repeated indices: a CSC matrix with duplicate entries is outside the input contract the CSC helpers already assume",
+    "C06_16": "Logistic.raw_grad rewritten in an algebraically equal form that overflows (inf / inf) for margins below -709: numeric",
+    "C11_17": "Cox tie test on mis-aligned masks: a value-dependent decision on runtime data",
+    "C16_18": "(n, 1)-shaped y broadcasting in a vectorised alpha_max: the lifter models y as a vector, for which the rewrite is decided equal",
+    "C17_16": "integer overflow of `y @ y` for narrow integer targets: element types of user data are not modelled",
+    "C20_18": "score array sized by the Lipschitz argument: only manifests through the recorded GroupBCD x LogisticGroup finding (per-feature constants, §8.2)",
 }
 
 
